@@ -229,6 +229,31 @@ Theorem C04_quantile_order_independent_generic : forall (V : Type) (o : RangeAri
 Proof. exact QuantileProofs.gquantile_perm. Qed.
 Print Assumptions C04_quantile_order_independent_generic.
 
+(* ... and, on the rationals, for 0 <= q <= 1 over a non-empty group it lies between two consecutive order
+   statistics of the group - the sorted sample at the floor of the rank q * (n - 1) and its successor - hence
+   between two of the group's samples *)
+From Verif Require QuantileRange.
+Theorem C04_quantile_between_order_statistics : forall (pinf ninf q : QArith_base.Q) (points : list QArith_base.Q),
+  points <> [] -> QArith_base.Qle (QArith_base.inject_Z 0) q -> QArith_base.Qle q (QArith_base.inject_Z 1) ->
+  let n := List.length points in
+  let rank := QArith_base.Qmult q (QArith_base.Qminus (QArith_base.inject_Z (Z.of_nat n)) (QArith_base.inject_Z 1)) in
+  let lo := RangeArith.gfloor_upto QArith_base.Q RangeArithProofs.qops n rank in
+  let hi := Nat.min (n - 1) (lo + 1) in
+  let r := RangeArith.gquantile QArith_base.Q RangeArithProofs.qops pinf ninf q points in
+  (lo <= hi < n)%nat /\
+  QArith_base.Qle (nth lo (RangeArith.gsort QArith_base.Q RangeArithProofs.qops points) (QArith_base.inject_Z 0)) r /\
+  QArith_base.Qle r (nth hi (RangeArith.gsort QArith_base.Q RangeArithProofs.qops points) (QArith_base.inject_Z 0)).
+Proof. exact QuantileRange.quantile_between_order_statistics. Qed.
+Print Assumptions C04_quantile_between_order_statistics.
+
+Theorem C04_quantile_between_samples : forall (pinf ninf q : QArith_base.Q) (points : list QArith_base.Q),
+  points <> [] -> QArith_base.Qle (QArith_base.inject_Z 0) q -> QArith_base.Qle q (QArith_base.inject_Z 1) ->
+  exists a b, In a points /\ In b points /\
+    QArith_base.Qle a (RangeArith.gquantile QArith_base.Q RangeArithProofs.qops pinf ninf q points) /\
+    QArith_base.Qle (RangeArith.gquantile QArith_base.Q RangeArithProofs.qops pinf ninf q points) b.
+Proof. exact QuantileRange.quantile_between_samples. Qed.
+Print Assumptions C04_quantile_between_samples.
+
 (* PARTIAL. Proved for every accumulator (sum, min, max, avg, count, group,
    stddev, stdvar, quantile are instances of [empty]/[add]): grouping, per-step
    membership, reset locality, parameter taken per step; for topk/bottomk the
